@@ -664,8 +664,8 @@ EXTRA_FILES = {
     "C19": ["Kanal/Deliver.lean", "Kanal/RoleOK.lean"],                         # drain_into: every value taken is pushed, the count is the number pushed
     "C04": ["Kanal/TiePtr.lean", "Kanal/RoleOK.lean"],              # pointer.rs translated: its operation lists compute PtrM's functions for every size, memory and word
     "C05": ["Kanal/TiePtr.lean", "Kanal/Disp.lean", "Kanal/Deliver.lean"],              # … and a value passed by value is consumed exactly once (moved or bit-copied + forgotten)
-    "C02": ["Kanal/Props/RealTime.lean"],      # real-time readings over executions: acceptance order in time, later value never taken first, drain order
-    "C08": ["Kanal/Props/RealTime.lean"],      # at every instant of an execution: accepted-and-unblocked minus delivered <= n; rendezvous
+    "C02": ["Kanal/Props/RealTime.lean", "Kanal/Shape.lean"],      # real-time readings over executions: acceptance order in time, later value never taken first, drain order
+    "C08": ["Kanal/Props/RealTime.lean", "Kanal/Shape.lean"],      # at every instant of an execution: accepted-and-unblocked minus delivered <= n; rendezvous
     "C10": ["Kanal/Props/RealTime.lean", "Kanal/Reasons.lean"],      # after close has returned: nothing delivered, every later call answers closed       # realtime variants on the translated code: one tryLock, busy => not done, never waits   # interleaving machine: the logical state moves by whole critical sections = Chan functions
 }
 for _pid in ("C07", "C15"):
